@@ -9,7 +9,7 @@
 //!
 //!   case   ::= (Case "<program>" ["<goal>" ...] <solver> <mode> [<opt> ...])
 //!   solver ::= Slg | (SlgWith max_size) | Rec | (RecWith overflow_depth caching max_size)
-//!   mode   ::= Fresh | History | (Multiple k) | (Limited [i ...]) | (LimitedFrom k)
+//!   mode   ::= Fresh | History | (Multiple k) | (Limited [i ...]) | (LimitedFrom k) | (HistoryMulti [S | (M k) ...])
 //!   opt    ::= Checked | Dump | (Cpu secs) | (StackMb n) | (MemMb n)
 //!   result ::= (Result <dump|NoDump> [<goalres> ...]) | (ProgramError "msg")
 //!   goalres::= (R [<pv> ...] <answer>) | (GoalError "msg")
@@ -72,7 +72,7 @@ fn set_cpu_limit(secs_from_now: u64) {
 // configuration
 // ---------------------------------------------------------------------------------------
 #[derive(Clone, Debug)]
-enum Mode { Fresh, History, Multiple(usize), Limited(Vec<u64>), LimitedFrom(u64) }
+enum Mode { Fresh, History, Multiple(usize), Limited(Vec<u64>), LimitedFrom(u64), HistoryMulti(Vec<Option<usize>>) }
 
 #[derive(Clone)]
 struct Cfg { solver: SolverChoice, mode: Mode, checked: bool, dump: bool, cpu: u64, stack_mb: usize, mem_mb: u64 }
@@ -100,6 +100,17 @@ fn parse_mode(s: &Sexp) -> Result<Mode, String> {
         Some("Multiple") => Ok(Mode::Multiple(a[0].as_num()? as usize)),
         Some("Limited") => Ok(Mode::Limited(a[0].as_list()?.iter().map(|x| x.as_num()).collect::<Result<_, _>>()?)),
         Some("LimitedFrom") => Ok(Mode::LimitedFrom(a[0].as_num()?)),
+        Some("HistoryMulti") => {
+            let mut steps = vec![];
+            for st in a[0].as_list()? {
+                match st.head() {
+                    Some("S") => steps.push(None),
+                    Some("M") => steps.push(Some(st.args()[0].as_num()? as usize)),
+                    _ => return Err(format!("bad step {}", st)),
+                }
+            }
+            Ok(Mode::HistoryMulti(steps))
+        }
         _ => Err(format!("bad mode {}", s)),
     }
 }
@@ -343,7 +354,7 @@ fn solve_one(db: &ChalkDatabase, program: &Arc<Program>, solver: &mut Box<dyn So
     };
     let pe = peel(lowered);
     let ans = match guarded(|| match mode {
-        Mode::Fresh | Mode::History => solution_sexp(program, &pe, solver.solve(db, &pe.goal)),
+        Mode::Fresh | Mode::History | Mode::HistoryMulti(_) => solution_sexp(program, &pe, solver.solve(db, &pe.goal)),
         Mode::Multiple(k) => {
             let mut items = vec![];
             let mut flags = vec![];
@@ -499,7 +510,7 @@ fn run_case(case: &Sexp) -> Result<Sexp, String> {
     let n = goals.len();
     let mut results: Vec<Sexp> = Vec::with_capacity(n);
     let mut head: Option<Sexp> = None;
-    let history = matches!(cfg.mode, Mode::History);
+    let history = matches!(cfg.mode, Mode::History | Mode::HistoryMulti(_));
     loop {
         let start = results.len();
         let want_dump = cfg.dump && head.is_none();
@@ -514,10 +525,18 @@ fn run_case(case: &Sexp) -> Result<Sexp, String> {
                 let h = if want_dump { guarded(|| dump_program(&p)).unwrap_or_else(|m| Sexp::App("DumpPanic".into(), vec![Sexp::Str(m)])) } else { Sexp::atom("NoDump") };
                 emit(h.to_string());
                 let mut shared = cfg.solver.into_solver();
-                for g in &goals[start..] {
+                for (off, g) in goals[start..].iter().enumerate() {
                     set_cpu_limit(cfg.cpu);
                     if history {
-                        emit(solve_one(&db, &p, &mut shared, &cfg.mode, g).to_string());
+                        // HistoryMulti: step i decides between solve and solve_multiple, same solver
+                        let step_mode = match &cfg.mode {
+                            Mode::HistoryMulti(steps) => match steps.get(start + off) {
+                                Some(Some(k)) => Mode::Multiple(*k),
+                                _ => Mode::History,
+                            },
+                            m => m.clone(),
+                        };
+                        emit(solve_one(&db, &p, &mut shared, &step_mode, g).to_string());
                     } else {
                         let mut solver = cfg.solver.into_solver();
                         emit(solve_one(&db, &p, &mut solver, &cfg.mode, g).to_string());
